@@ -15,13 +15,16 @@ Dynamic part (import of pptx, nothing in /repo is modified):
   2. every public string-accepting entry point of the registry below is called with a
      marker string while every scanned function and pptx.oxml.parse_xml are wrapped:
      the run-time strings are matched against the templates, which tells for every hole
-     the values it really received and which entry point's string reaches it (taint).
+     the values it really received and which entry point's string reaches it (taint);
+  3. the same calls are repeated with the marker followed by the metacharacters: the form in
+     which they arrive in the template text must be the escaping read from the source.
 Result per hole: one sink (context, escaping) where escaping = NotText when the value is an
-integer / constant / enumeration token, or when the hole was exercised and no caller string
-ever reached it (library-made value, observed values recorded in the meta file).
-Fail-closed: everything not understood is an entry of `unmodelled`.
+integer / constant / enumeration token, or when the hole was exercised, no caller string
+ever reached it, and every expression it can receive through the call sites of the package
+is literal text, an integer, or listed in LIBRARY_MADE (observed values recorded in the meta
+file).  Fail-closed: everything not understood is an entry of `unmodelled`.
 
-The entry-point registry (ENTRY_POINTS) is shared with checks/c05.py (the oracle).
+The entry-point registry (build_entry_points) is shared with checks/c05.py (the oracle).
 """
 import ast
 import io
@@ -260,6 +263,7 @@ class Scanner:
         self.units = []          # dicts
         self.whole_parses = []   # parse_xml(<not a template>)
         self.n_parse_calls = 0
+        self._resolving = set()
 
     # ---------------------------------------------------------------- expression evaluation
     def ev(self, e, cx, depth=0):
@@ -328,10 +332,15 @@ class Scanner:
                 if isinstance(it, ast.Call) and isinstance(it.func, ast.Name) and it.func.id == "range":
                     return [H(Hole(nm, "int", "range index", line=e.lineno, conv="d"))]
                 return [H(Hole(nm, "opaque", "loop variable over " + ast.unparse(it), line=e.lineno))]
-            if nm in c.assigns:
+            if nm in c.assigns and (id(c.fn), nm) not in self._resolving:
                 vals = c.assigns[nm]
                 if nm not in c.aug and len(vals) == 1 and vals[0] is not None:
-                    return self.ev(vals[0], c, depth + 1)
+                    # x = f(x): inside the assigned value the name denotes its previous binding
+                    self._resolving.add((id(c.fn), nm))
+                    try:
+                        return self.ev(vals[0], c, depth + 1)
+                    finally:
+                        self._resolving.discard((id(c.fn), nm))
                 if any(v is None for v in vals):
                     return [H(Hole(nm, "opaque", "unpacked local", line=e.lineno))]
                 evs = [self.ev(v, c, depth + 1) for v in vals]
@@ -1567,6 +1576,8 @@ def build_entry_points():
 
 # =============================================================================== dynamic part
 MARK_RE = re.compile(r"Zq[0-9]+qZ")
+HOT = "&<>\"x"
+HOT_FORMS = {"&<>\"x": None, "&amp;&lt;&gt;\"x": "sax", "&amp;&lt;&gt;&quot;x": "saxq"}
 
 
 def marker(i):
@@ -1773,11 +1784,32 @@ def run_entry_points(eps, log, unmodelled):
             except Exception as e:  # noqa
                 failed[ep.key] = "%s: %s" % (type(e).__name__, str(e)[:200])
         coverage_actions(Env(tmp))
+        # second pass: the same markers followed by metacharacters, to SEE which escaping every
+        # reached hole really applies (the calls may fail; the strings are logged before parsing)
+        cold = {k: {"calls": v["calls"], "strings": list(v["strings"])} for k, v in log.items()}
+        log.clear()
+        for i, ep in enumerate(eps):
+            try:
+                ep.make(Env(tmp), marker(i) + HOT)
+            except Exception:  # noqa
+                pass
+        hot = {k: {"calls": v["calls"], "strings": list(v["strings"])} for k, v in log.items()}
+        log.clear()
+        log.update(cold)
     finally:
         shutil.rmtree(tmp, ignore_errors=True)
     for k, v in failed.items():
         unmodelled.append("entry point %s does not work with a plain marker string: %s" % (k, v))
-    return markers
+    return markers, hot
+
+
+def unit_strings(u, key, log):
+    strings = list(log.get(key, {}).get("strings", []))
+    for lk, lv in log.items():
+        if lk.startswith("parse:%s:" % u["mod"]) and lk.split(":")[-1].split(".")[-1] in (u["top"],) and (
+                u["cls"] is None or ("." + u["cls"] + ".") in ("." + lk.split(":")[-1] + ".") or lk.split(":")[-1].startswith(u["cls"] + ".")):
+            strings += lv["strings"]
+    return strings
 
 
 def coverage_actions(env):
@@ -1812,7 +1844,7 @@ def main():
     eps = build_entry_points()
     undo = instrument(units, log)
     try:
-        markers = run_entry_points(eps, log, unmodelled)
+        markers, hotlog = run_entry_points(eps, log, unmodelled)
     finally:
         uninstrument(undo)
     by_marker = {v: k for k, v in markers.items()}
@@ -1820,11 +1852,7 @@ def main():
     for u in units:
         rx, groups = unit_regex(u["segs"])
         key = "%s:%s%s" % (u["mod"], (u["cls"] + ".") if u["cls"] else "", u["top"])
-        strings = list(log.get(key, {}).get("strings", []))
-        for lk, lv in log.items():
-            if lk.startswith("parse:%s:" % u["mod"]) and lk.split(":")[-1].split(".")[-1] in (u["top"],) and (
-                    u["cls"] is None or ("." + u["cls"] + ".") in ("." + lk.split(":")[-1] + ".") or lk.split(":")[-1].startswith(u["cls"] + ".")):
-                strings += lv["strings"]
+        strings = unit_strings(u, key, log)
         u["calls"] = log.get(key, {}).get("calls", 0)
         obs = [set() for _ in groups]
         taint = [set() for _ in groups]
@@ -1841,6 +1869,18 @@ def main():
                             taint[gi].add(by_marker[mk])
         u["matches"] = nmatch
         u["obs"], u["taint"] = obs, taint
+        # escaping observed on the hot pass
+        seen_esc = [set() for _ in groups]
+        for s in unit_strings(u, key, hotlog):
+            for m in rx.finditer(s):
+                for gi in range(len(groups)):
+                    val = m.group(gi + 1)
+                    mm = MARK_RE.search(val)
+                    if mm and mm.group(0) in by_marker:
+                        tail = val[mm.end():]
+                        form = [f for f in HOT_FORMS if tail.startswith(f)]
+                        seen_esc[gi].add(HOT_FORMS[form[0]] if form else "?" + tail[:24])
+        u["seen_esc"] = seen_esc
     # ---- sinks
     kf_path = os.path.join(VERIF, "known_findings.json")
     known_sigs = set()
@@ -1879,6 +1919,11 @@ def main():
             elif tainted:
                 esc = {None: "EscNone", "sax": "EscSax", "saxq": "EscSaxQuot"}[h.esc]
                 origin = "caller text"
+                seen = u["seen_esc"][hi]
+                if seen != {h.esc}:
+                    unmodelled.append("%s: escaping of %r: the source says %r, at run time the value arrives as %s" % (
+                        where, h.src, h.esc or "none", sorted(str(x) for x in seen) or "nothing (the slot was not reached with metacharacters)"))
+                    continue
                 if partial:
                     unmodelled.append("%s: caller text %r is only a part of the value of %s" % (where, h.src, slot))
                     continue
